@@ -289,7 +289,7 @@ class C22:
         "check-then-open races with a concurrently mutated tree are outside the stated quantifier; the tree is "
         "static in the fault-free configuration and only file contents (never links) change in the fault configuration",
     ]
-    REQUIRED_REACH = ["fault.cancel_landed", "reach.feature.abs", "reach.feature.dotdot", "reach.feature.link", "reach.feature.long",
+    REQUIRED_REACH = ["fault.cancel_landed", "reach.second_event_loop", "reach.feature.abs", "reach.feature.dotdot", "reach.feature.link", "reach.feature.long",
                       "reach.feature.nul", "reach.feature.ctrl", "reach.outcome.ok", "reach.outcome.notfound",
                       "reach.cache_hit", "reach.link_followed", "reach.link_rejected", "reach.async_overlap",
                       "fault.errno", "fault.edit_between_calls", "reach.pkg.ok"]
@@ -311,6 +311,7 @@ class C22:
             "root_shape": rng.weighted([("abs", 6), ("relative", 2), ("via_link", 2), ("cwd", 2), ("link_dotdot", 1.5)]),
             "cwd_form": rng.choice([".", "", "./"]),
             "compose": rng.weighted([(None, 7), ("choice", 2), ("factory", 1)]),
+            "segments": 2 if rng.chance(0.15) else 1,     # the requests run in two successive event loops
             "pkg_paths": rng.choice([["templates"], ["templates", "more"], "templates"]),
             "ext": rng.weighted([(None, 3), (".liquid", 4), (".txt", 1)]),
             "reject_symlinks": rng.chance(0.5),
@@ -456,7 +457,11 @@ class C22:
                 "../" + sc["pkg"] + "/secret.liquid", "../other/x.liquid", "../other/x", "..%2fsecret.liquid",
                 "..\\other\\x.liquid", "..\\other\\x", "..\\secret.liquid", "..\\secret", "sub\\..\\..\\secret",
                 "..\\outside\\secret", "..\\..\\..\\outside\\secret.txt", "..\\a.liquid", "..\\a",
-                base + "/../../outside/secret.txt", "../root/a.liquid", "../root2/e.liquid", ". ./a", "../templates/p"])
+                base + "/../../outside/secret.txt", "../root/a.liquid", "../root2/e.liquid", ". ./a", "../templates/p",
+                # look-alikes of '..' and '/' that only fold into the real thing under unicode normalisation
+                "\u2025/outside/secret.txt", "\u2024\u2024/secret.liquid", "\uff0e\uff0e/secret.liquid",
+                "sub/\u2025/\u2025/outside/a.liquid", "\uff0e\uff0e\uff0fsecret.liquid", "\uff0fetc\uff0fhostname",
+                "\u2025/a.liquid", "\uff0e\uff0e/outside/secret", "\ufe30/outside/secret.txt"])
         if mode == "abs":
             return rng.choice([
                 ab + "/outside/secret.txt", ab + "/outside/secret", ab + "/outside/a.liquid", ab + "/secret.liquid",
@@ -750,10 +755,22 @@ class C22:
                 if viol:
                     return
 
-        async def root():
-            ts = [loop.create_task(client(c), name="c%d" % c["id"]) for c in sc["clients"] if c["ops"]]
+        nseg = sc.get("segments", 1) if not sc.get("phases") else 1
+
+        def part(c, si):
+            ops = c["ops"]
+            if nseg == 1 or si is None:
+                return ops
+            h = (len(ops) + 1) // 2
+            return ops[:h] if si == 0 else ops[h:]
+
+        async def root(si=None):
+            ts = [loop.create_task(client({**c, "ops": part(c, si)}), name="c%d" % c["id"]) for c in sc["clients"]
+                  if part(c, si)]
             if ts:
                 await asyncio.gather(*ts)
+            if si is not None:
+                return
             for k, ph in enumerate(sc.get("phases") or []):
                 if viol:
                     return
@@ -762,19 +779,32 @@ class C22:
                 if ts:
                     await asyncio.gather(*ts)
 
+        tot = {"jobs": 0, "time": 0.0, "steps": 0, "isig": []}
         try:
-            loop.run_sim(root())
+            for si in (range(nseg) if nseg > 1 else [None]):
+                if si:
+                    prev = loop
+                    loop = SimLoop(Rng(sc["sched_seed"], ("sched", si)), step_cap=60000, lat_profile=sc["lat"])
+                    loop.seq, loop.log = prev.seq, prev.log
+                    bump(st, "reach.second_event_loop")
+                loop.run_sim(root(si))
+                tot["jobs"] += loop.executor_jobs
+                tot["time"] += loop.time()
+                tot["steps"] += loop.steps
+                tot["isig"].append(loop.interleaving_signature())
+                if viol:
+                    break
         except SimDeadlock:
             add("liveness", "deadlock", {"log_tail": loop.log[-10:]})
         except SimStepCap:
             raise RuntimeError("HARNESS-TIMEOUT: SimLoop step cap")
         bump(st, "runs." + sc["config"])
         bump(st, "runs.loader." + sc["loader"])
-        bump(st, "exec.jobs", loop.executor_jobs)
+        bump(st, "exec.jobs", tot["jobs"])
         bump(st, "storage.calls", plan.calls)
-        res["sim_time"] = loop.time()
-        res["steps"] = loop.steps
-        res["isig"] = loop.interleaving_signature()
+        res["sim_time"] = tot["time"]
+        res["steps"] = tot["steps"]
+        res["isig"] = tot["isig"][0] if len(tot["isig"]) == 1 else digest(tot["isig"])
         res["digest"] = digest((loop.log, history))
         res["nontrivial"] = nontrivial[0] > 0
 
@@ -862,6 +892,8 @@ class C22:
             yield {**sc, "roots": sc["roots"][:1]}
         if sc.get("compose"):
             yield {**sc, "compose": None}
+        if sc.get("segments", 1) > 1:
+            yield {**sc, "segments": 1}
         if sc["lat"]["zero_p"] != 1.0:
             yield {**sc, "lat": {**sc["lat"], "zero_p": 1.0}}
         for i, c in enumerate(cl):
